@@ -123,10 +123,14 @@ def child(vh, cpus, db, queries, lowmem=False, gomaxprocs=None, limit=600, env_e
         except subprocess.TimeoutExpired:
             pass
         now = time.time()
-        if nextprobe and now >= nextprobe:
+        if nextprobe and now >= nextprobe and "WQ-READY" in open(os.path.join(wd, "err"), errors="replace").read():
+            ndumps = open(os.path.join(wd, "err"), errors="replace").read().count("WQ-DUMP-END")
             p.send_signal(signal.SIGUSR1)
-            time.sleep(1.0)
-            st, _ = abstract_dump(last_dump(open(os.path.join(wd, "err")).read()))
+            t1 = time.time()
+            while time.time() - t1 < 30 and open(os.path.join(wd, "err"), errors="replace").read().count("WQ-DUMP-END") == ndumps \
+                    and p.poll() is None:
+                time.sleep(0.2)
+            st, _ = abstract_dump(last_dump(open(os.path.join(wd, "err"), errors="replace").read()))
             nproofs = nproofs + 1 if deadlock_proven(st) else 0
             nextprobe = time.time() + (3.0 if nproofs else probe)
             if nproofs >= 2:
@@ -154,20 +158,33 @@ def child(vh, cpus, db, queries, lowmem=False, gomaxprocs=None, limit=600, env_e
     return {"events": evs, "timeout": to, "secs": secs, "stderr": err, "rc": p.returncode}
 
 
-def idle_dump(vh):
+def _wait_for(path, token, secs):
+    t0 = time.time()
+    while time.time() - t0 < secs:
+        if token in open(path, errors="replace").read():
+            return True
+        time.sleep(0.2)
+    return False
+
+
+def idle_dump(vh, workdir):
     """negative control for the dump classifier: a healthy child (waiting for its first query) is asked for its stacks"""
     env = dict(os.environ, GOTRACEBACK="all")
-    p = subprocess.Popen(["taskset", "-c", "0", vh, "wq-query", "-db", "/nonexistent"], stdin=subprocess.PIPE,
-                         stdout=subprocess.PIPE, stderr=subprocess.PIPE, text=True, env=env)
-    time.sleep(1.0)
-    p.send_signal(signal.SIGUSR1)
-    time.sleep(1.0)
-    try:
-        _, err = p.communicate("", timeout=30)
-    except subprocess.TimeoutExpired:
-        p.kill()
-        _, err = p.communicate()
-    return last_dump(err)
+    ef = os.path.join(workdir, "idle.err")
+    with open(ef, "w+") as fe:
+        p = subprocess.Popen(["taskset", "-c", "0", vh, "wq-query", "-db", "/nonexistent"], stdin=subprocess.PIPE,
+                             stdout=subprocess.DEVNULL, stderr=fe, text=True, env=env)
+        try:
+            vlib.require(_wait_for(ef, "WQ-READY", 120), "idle child did not get ready")
+            p.send_signal(signal.SIGUSR1)
+            vlib.require(_wait_for(ef, "WQ-DUMP-END", 120), "idle child did not dump its stacks")
+        finally:
+            try:
+                p.stdin.close()
+                p.wait(timeout=30)
+            except Exception:  # noqa
+                p.kill()
+    return last_dump(open(ef, errors="replace").read())
 
 
 def days_query(d):
@@ -190,7 +207,7 @@ def eq_queries(days):
          "first": DAY0 - 1000, "last": end, "dir": "none"},
         {"ifaces": ["e1", "e0"], "attrs": ["dip", "proto"], "time": False, "iface": False,
          "cond": {"k": "not", "x": atom("dport", "<", [], 256)},
-         "first": DAY0, "last": DAY0 + (days // 2) * 86400, "dir": "uni"},
+         "first": DAY0, "last": DAY0 + (days // 2) * 86400, "dir": "none"},
     ]
 
 
@@ -239,7 +256,7 @@ def main():
         tnorm = base["events"][0]["secs"]
         # generous limit (a healthy run on a loaded machine must not be cut short); a run that looks stuck is asked for
         # its goroutine stacks after `probe` seconds and ended early only if two dumps prove a permanent block
-        limit = max(120.0, 100 * tnorm)
+        limit = max(300.0, 100 * tnorm)
         probe = max(6.0, 6 * tnorm)
         tcases = [(2047, 1), (2048, 1), (2049, 1), (2100, 1)] + ([(4095, 2), (4096, 2), (4097, 2)] if thorough else [])
         tres = {}
@@ -352,7 +369,7 @@ def main():
                                     if all(ended[x] == pred[x]["asbuilt_ends"] for x in ended) and not all(ended.values())
                                     else "workers receive while workloads are produced" if all(ended.values()) else "neither model variant")
         # negative control of the dump classifier
-        st0, _ = abstract_dump(idle_dump(vh))
+        st0, _ = abstract_dump(idle_dump(vh, sc))
         vlib.require(st0["goroutines"] > 0 and not deadlock_proven(st0), "negative control: an idle child's dump was classified as deadlock")
         run.cov["negative_control_dump"] = "dump of a healthy child (%d goroutines) not classified as deadlock" % st0["goroutines"]
 
@@ -377,8 +394,14 @@ def main():
                 distinct.setdefault(_reskey(e), (e, []))[1].append({"k": k, "lowmem": lowmem, "gomaxprocs": gmp, "extra": bool(extra)})
         run.count(nchild)
         order = []
-        for key in sorted(distinct):
+        unjudged = []
+        perq = {}
+        for key in sorted(distinct, key=lambda k_: (-len(distinct[k_][1]), k_)):
             e, cfgs = distinct[key]
+            perq[e["qn"]] = perq.get(e["qn"], 0) + 1
+            if perq[e["qn"]] > 6:
+                unjudged.append((e, cfgs))      # a query has one result: see below
+                continue
             order.append((e, cfgs))
             lines.append(json.dumps({x: e[x] for x in ("ev", "q", "rows", "totals", "hits", "ifaces", "err")}, separators=(",", ":")))
         neq = len(lines)
@@ -415,6 +438,18 @@ def main():
             run.distinct("days=%d cpus=%d" % (e["days"], e["cpus"]))
         run.sample({"kind": "equality child", "config": order[0][1][0], "qtype": order[0][0]["qtype"], "hits": order[0][0]["hits"]})
         run.sample({"kind": "termination case", **term[-1]})
+        # results beyond the sixth distinct one of a query were not sent to TLC: Result(db,q) is a function, so if TLC
+        # accepted one result of that query every other one is not the specification's
+        accepted_q = {order[ln - 2][0]["qn"] for ln in range(2, neq + 1) if ln not in mlines}
+        for e, cfgs in unjudged:
+            if e["qn"] in accepted_q:
+                for cfg in cfgs:
+                    run.violation({"cls": "parallel-result-mismatch", "k": cfg["k"], "lowmem": cfg["lowmem"], "binding": "F1"},
+                                  {"kind": "wq-equality", "config": cfg, "seed": run.seed, "days": edays, "query": e["q"], "qtype": e["qtype"],
+                                   "condition": e["text"], "note": "differs from the result TLC accepted for this query",
+                                   "got_hits": e["hits"], "got_totals": e["totals"]})
+            else:
+                run.note("query %d: a result of %d configuration(s) was not judged (more than six distinct results)" % (e["qn"], len(cfgs)))
         for mm in t.mismatches:
             ln = mm.get("line")
             if ln == negline:
